@@ -3,6 +3,7 @@ package props
 import (
 	"bytes"
 	"fmt"
+	"gopkg.in/yaml.v3"
 	"os"
 	"path/filepath"
 	"regexp"
@@ -211,6 +212,14 @@ func scriptCaseRoute(c *Ctx, fam *report.Family, f string, configured [][2]strin
 			}
 		}
 		cfg := &nfpm.Config{Info: *top.Info(), Overrides: map[string]*nfpm.Overridables{f: &over.Overridables}}
+		// … written out as a YAML document and read back with the strict parser, as a user's nfpm.yaml is
+		if doc, merr := yaml.Marshal(cfg); merr == nil {
+			if parsed, perr := nfpm.Parse(bytes.NewReader(doc)); perr == nil {
+				cfg = &parsed
+			} else {
+				c.Rep.Note("c09 via-override: marshalled configuration does not parse: %v", perr)
+			}
+		}
 		var gi *nfpm.Info
 		if gi, err = cfg.Get(f); err == nil {
 			data, err = BuildPkg(f, nfpm.WithDefaults(gi))
